@@ -427,6 +427,8 @@ class MinMaxAggregator:
                 lits_with_vars.append(blit)
             else:
                 lits_without_vars.append(blit)
+        if not rest_vars <= collect_binding_information_body(lits_with_vars)[0]:
+            return [rule]  # a group variable that the moved literals do not bind can not be an argument of the chain predicates
         if rule.ast_type == ASTType.Minimize:
             rest_vars.update(inside_variables.intersection(collect_ast(rule.weight, "Variable")))
             rest_vars.update(inside_variables.intersection(collect_ast(rule.priority, "Variable")))
@@ -436,8 +438,6 @@ class MinMaxAggregator:
         for blit in lits_with_vars:
             if any(var in rule_globals and var not in rest_vars for var in collect_ast(blit, "Variable")):
                 return [rule]  # a variable bound by a literal that stays behind would become local in the chain rules
-        if not rest_vars <= collect_binding_information_body(list(chain(elem.condition, lits_with_vars)))[0]:
-            return [rule]  # a group variable that nothing binds can not be an argument of the chain predicates
         # variables that are used inside but also outside of the aggregate
         rest_vars_sorted: list[AST] = sorted(rest_vars)
         if {NEXT.name, PREV.name}.intersection(var.name for var in collect_ast(rule, "Variable")):
